@@ -43,11 +43,19 @@ def ret_type(sig):
         return "OptNat"
     if t == "usize":
         return "Nat"
+    if t == "Option<Self::Item>":
+        return "Elem"
+    if t == "Option<f64>":
+        return "OptF"
+    if t == "(usize,Option<Self::Item>)":
+        return ("tuple", ("Nat", "Elem"))
     raise C.Unsupported(f"return type {t}")
 
 
 # functions of `AggValidExt` (tea-agg/src/lib.rs), translated after the ones above
 EXT_FNS = ["vkurt"]
+# functions of the plain trait `AggBasic` (agg.rs; null-free items): emitted in the namespace `plain`
+PLAIN_FNS = ["count_value", "first", "last", "n_sum", "sum", "mean", "max", "min", "argmax", "argmin"]
 
 
 def trait_src(src, trait="AggValidBasic"):
@@ -87,10 +95,11 @@ def fn_src(tsrc, name):
     return sig, tsrc[i: j + 1]
 
 
-def translate(name, sig, body_src, siblings):
+def translate(name, sig, body_src, siblings, plain=False):
     rt = ret_type(sig)
     params = re.findall(r"\b(\w+)\s*:\s*usize\b", sig.split("->")[0])
     eparams = re.findall(r"\b(\w+)\s*:\s*T\b(?!:)", sig.split("->")[0].split("(", 1)[1])
+    iparams = re.findall(r"\b(\w+)\s*:\s*Self::Item\b", sig.split("->")[0].split("(", 1)[1]) if plain else []
     two = bool(re.search(r"\bother\s*:", sig))
     blk = C.P(C.tokenize(body_src)).block()
     # `let mut x = None;` without annotation: typed by trying the two option types the subset has
@@ -103,8 +112,10 @@ def translate(name, sig, body_src, siblings):
         em.siblings = siblings
         em.nan_vars = C.nan_assigned(blk)
         em.none_types = dict(zip(untyped, combo))
+        em.plain = plain
         env = {p: "Nat" for p in params}
         env.update({p: "Elem" for p in eparams})
+        env.update({p: "Rat" for p in iparams})
         try:
             txt, ty = em.stmts(blk[1], blk[2], env, [], rt)
             break
@@ -117,11 +128,13 @@ def translate(name, sig, body_src, siblings):
     if ty != rt and not (ty == "Elem" and rt == "OptF") and not (ty == "OptF" and rt == "Elem"):
         raise C.Unsupported(f"result type {ty}, declared {rt}")
     L = [f"namespace {name}"]
-    ps = "".join(f" ({C.lname(p)} : Option Rat)" for p in eparams) + "".join(f" ({C.lname(p)} : Nat)" for p in params)
+    ps = ("".join(f" ({C.lname(p)} : Option Rat)" for p in eparams) + "".join(f" ({C.lname(p)} : Rat)" for p in iparams)
+          + "".join(f" ({C.lname(p)} : Nat)" for p in params))
     ys = " (ys : List (Option Rat))" if two else ""
-    where = "tea-core/src/agg.rs" if name in FNS else "tea-agg/src/lib.rs"
+    where = "tea-agg/src/lib.rs" if name in EXT_FNS and not plain else "tea-core/src/agg.rs"
     L.append(f"/-- `{name}` of {where}, in source order -/")
-    L.append(f"def run (sqrt : Rat → Rat) (xs : List (Option Rat)){ys}{ps} : {C.ty_lean(rt)} :=")
+    xs_ty = "List Rat" if plain else "List (Option Rat)"
+    L.append(f"def run (sqrt : Rat → Rat) (xs : {xs_ty}){ys}{ps} : {C.ty_lean(rt)} :=")
     L.append("  let _ := sqrt; let _ := xs")
     L.append(C.indent(txt, 2))
     L.append("def parsed : Bool := true")
@@ -174,6 +187,34 @@ def main():
         out.append(txt)
         out.append("")
     out.append("def functions : List String := [" + ", ".join(f'"{n}"' for n in names) + "]")
+    # ---- the plain trait `AggBasic`
+    out.append("\n/-! ## `AggBasic` (null-free items) -/\nnamespace plain\n")
+    try:
+        ptsrc = trait_src(src, "AggBasic")
+    except Exception as ex:
+        ptsrc = None
+        out.append(f"/- UNPARSED: {ex} -/")
+    psib, pnames = {}, []
+    for name in PLAIN_FNS:
+        try:
+            if ptsrc is None:
+                raise C.Unsupported("no trait")
+            sig, body = fn_src(ptsrc, name)
+            txt, rt, np, two = translate(name, sig, body, psib, plain=True)
+            psib[name] = (f"{name}.run", rt, np)
+        except C.Unsupported as ex:
+            reason = str(ex).replace('"', "'")
+            txt = (f"namespace {name}\n/- UNPARSED: {reason} -/\ndef parsed : Bool := false\n"
+                   f"def reason : String := \"{reason}\"\nend {name}")
+        except Exception as ex:
+            reason = (type(ex).__name__ + ": " + str(ex)).replace('"', "'")
+            txt = (f"namespace {name}\n/- UNPARSED: {reason} -/\ndef parsed : Bool := false\n"
+                   f"def reason : String := \"{reason}\"\nend {name}")
+        pnames.append(name)
+        out.append(txt)
+        out.append("")
+    out.append("def functions : List String := [" + ", ".join(f'"{n}"' for n in pnames) + "]")
+    out.append("end plain")
     out.append("\nend Tv.GenAgg")
     new = "\n".join(out) + "\n"
     try:
